@@ -41,6 +41,9 @@ func NewBinder(kubeClient client.Client, rrs resourcereservation.Interface, plug
 
 func (b *Binder) Bind(ctx context.Context, pod *v1.Pod, node *v1.Node, bindRequest *v1alpha2.BindRequest) error {
 	logger := log.FromContext(ctx)
+	// The pod this attempt is about: the patches below overwrite the object with the server's answer, which is a
+	// different pod if this one was deleted and re-created under the same name in the meantime.
+	podUID := pod.UID
 	err := b.resourceReservationService.SyncForNode(ctx, bindRequest.Spec.SelectedNode)
 	if err != nil {
 		return fmt.Errorf("failed to sync reservation for pod <%s/%s> on node <%s>: %w", pod.Namespace, pod.Name, bindRequest.Spec.SelectedNode, err)
@@ -69,7 +72,7 @@ func (b *Binder) Bind(ctx context.Context, pod *v1.Pod, node *v1.Node, bindReque
 
 	logger.Info("Binding pod", "namespace", pod.Namespace, "name", pod.Name, "hostname", node.Name)
 	binding := &v1.Binding{
-		ObjectMeta: metav1.ObjectMeta{Namespace: pod.Namespace, Name: pod.Name, UID: pod.UID},
+		ObjectMeta: metav1.ObjectMeta{Namespace: pod.Namespace, Name: pod.Name, UID: podUID},
 		Target: v1.ObjectReference{
 			Kind: "Node",
 			Name: node.Name,
